@@ -136,6 +136,42 @@ def rule_copy(ctx):
                     ok, why = False, "reads from and writes to the same endpoint"
         ctx.ob("C01.COPY", lp, f"{label}: one unmodified write of the loop variable per iteration", ok,
                f"{fn.name}: the copy loop does not write exactly the block it read, once, on every iteration ({why})", construct=f"copy:{fn.name}:{why}")
+    # copy loops written as `while`: block = await <source>.read(n); ...; await <sink>.write(block) - the only way out is an empty read
+    hosts = [w for h, w in p.workers()] + [p.methods("Client")[n_] for n_ in ("upload", "download") if n_ in p.methods("Client")]
+    for fn in hosts:
+        for lp in [n for n in walk_no_nested(fn) if isinstance(n, ast.While)]:
+            reads = [n for n in walk_no_nested(lp) if isinstance(n, ast.Assign) and len(n.targets) == 1 and isinstance(n.targets[0], ast.Name) and isinstance(n.value, ast.Await)
+                     and isinstance(n.value.value, ast.Call) and isinstance(n.value.value.func, ast.Attribute) and n.value.value.func.attr in ("read", "readexactly", "readline")]
+            writes_ = [c for c in walk_no_nested(lp) if isinstance(c, ast.Call) and isinstance(c.func, ast.Attribute) and c.func.attr == "write"]
+            if len(reads) != 1 or not writes_:
+                continue
+            n_byte += 1
+            var = reads[0].targets[0].id
+            ok, why = True, ""
+            always = isinstance(lp.test, ast.Constant) and lp.test.value is True
+            if not always and not (isinstance(lp.test, ast.Name) and lp.test.id == var):
+                ok, why = False, f"the loop condition `{src(lp.test)[:40]}` is not the emptiness of the block"
+            for ev, out in Cfg(lambda n: [], p.issub, unroll=1).seq(lp.body):
+                empty = None     # what the path knows about the block read on it
+                for e in ev:
+                    if e[0] == "branch":
+                        t, pol = e[1], e[2]
+                        if isinstance(t, ast.UnaryOp) and isinstance(t.op, ast.Not):
+                            t, pol = t.operand, not pol
+                        if isinstance(t, ast.Name) and t.id == var:
+                            empty = not pol
+                wr = [c for n in evaluated(ev) for c in walk_self(n) if isinstance(c, ast.Call) and isinstance(c.func, ast.Attribute) and c.func.attr == "write"]
+                if out[0] in ("break", "return") and empty is not True:
+                    ok, why = False, f"the loop is left by `{out[0]}` on a path where the block just read is not empty (a short read is not the end of the stream)"
+                if out[0] in ("fall", "continue") and empty is not True and len(wr) != 1:
+                    ok, why = False, f"{len(wr)} writes on an iteration path with a non-empty block"
+                for c in wr:
+                    if not (len(c.args) == 1 and isinstance(c.args[0], ast.Name) and c.args[0].id == var):
+                        ok, why = False, f"writes `{src(c.args[0])[:30] if c.args else ''}`, not the block it read"
+                    if src(c.func.value) == src(reads[0].value.value.func.value):
+                        ok, why = False, "reads from and writes to the same endpoint"
+            ctx.ob("C01.COPY", lp, f"{p.qualname(fn)}: while-form copy loop writes each block once and ends only on an empty read", ok,
+                   f"{fn.name}: the copy loop does not move every block until the source is exhausted ({why})", construct=f"copy:{fn.name}:{why}")
     if n_byte < 4:
         ctx.floor_errors.append(f"rule=C01.COPY: {n_byte} byte-moving loops (floor 4)")
 
@@ -710,4 +746,11 @@ def rule_cli(ctx):
            construct="cli:__aexit__")
 
 
-RULES = [rule_ack, rule_copy, rule_eof, rule_thru, rule_seek, rule_offset, rule_cli]
+def rule_shared_cursor(ctx):
+    from .c18 import rule_pure
+    ctx.rule("C01.CURSOR", "no query operation of the in-memory backend moves the cursor / changes the content of a file object (one object per stored file, shared by every "
+                           "transfer of it): a STAT or listing during a transfer would make RETR end early or STOR write at the wrong place (shared with C18.PURE)")
+    ctx.borrow(rule_pure, {"C18.PURE": "C01.CURSOR"})
+
+
+RULES = [rule_ack, rule_copy, rule_eof, rule_thru, rule_seek, rule_offset, rule_cli, rule_shared_cursor]
